@@ -27,8 +27,8 @@ class RecQuiver:
         self.axes, self.args, self.kwargs = axes, args, kwargs
 
 
-def _patches():
-    base = pipeline.patches('all')
+def _patches(valid='all'):
+    base = pipeline.patches(valid)
 
     def make():
         import contextlib
@@ -190,6 +190,15 @@ def cases(tier):
                                                          mesh_opts=dict(face_centres=True), mode=mode), patches=_patches(), max_paths=100)
             yield Case(f'ugrid:{mesh}:nocentres:{mode}', body, dict(conv='ugrid', shape=mesh, bounds='none', layout='plain', mode=mode),
                        patches=_patches(), max_paths=100)
+
+
+    # meshes whose faces may be self-intersecting (dropped with a warning: a cell without geometry in the middle of a
+    # mesh): validity decided from the symbolic node coordinates as in C06
+    for mesh in (['tq'] if q else ['tq', 'tqp']):
+        for mode in ('name', 'quiver'):
+            yield Case(f'ugrid:{mesh}:symbolic-validity:{mode}', body, dict(conv='ugrid', shape=mesh, bounds='none', layout='plain',
+                                                                          mesh_opts=dict(face_centres=True), mode=mode),
+                       patches=_patches('sandwich'), max_paths=2000, split=8, solver='nlsat')
 
 
 def functions():
